@@ -761,6 +761,24 @@ Lemma C12_macro_named_like_function_all_paths_proof :
   map (c12_five_out 40 c12_w_fname b#"max" [ELit (LInt 7)] []) c12_five_names = map (fun _ => Ok b#"<mymax7>") c12_five_names.
 Proof. vm_compute. reflexivity. Qed.
 
+(* what remains path dependent (known finding default-calls-sibling-macro): a DEFAULT that calls a macro of its own
+   template. Defaults are evaluated in the caller's context, and only the defining template holds the library's macros
+   by name; C12_paths_agree excludes it by its side condition on the defaults of the called macro *)
+Definition c12_w_default : list node :=
+  [ NMacro b#"a" [(b#"x", None)] [NText b#"<a"; NPrint (EVar b#"x"); NText b#">"];
+    NMacro b#"b" [(b#"y", Some (ECall b#"a" [ELit (LInt 1)]))] [NText b#"[b"; NPrint (EVar b#"y"); NText b#"]"] ].
+Lemma C12_default_sibling_refuted_proof :
+  exists D m args,
+    c12_five_out 40 D m args [] b#"local" = Ok b#"[b<a1>]" /\
+    c12_five_out 40 D m args [] b#"self" = Ok b#"[b<a1>]" /\
+    c12_five_out 40 D m args [] b#"import" = Err EOther /\
+    c12_five_out 40 D m args [] b#"from" = Err EOther /\
+    c12_five_out 40 D m args [] b#"alias" = Err EOther /\
+    (* and the side condition of C12_paths_agree is what fails: the default looks up the sibling a *)
+    c12_params_ok (c12_minus [b#"loop"; b#"x"; b#"y"; b#"a"] (ts_sibling_macros (c12_five_env D m args) c12_lib_name))
+                  [(b#"y", Some (ECall b#"a" [ELit (LInt 1)]))] = false.
+Proof. exists c12_w_default, b#"b", []. vm_compute. repeat split; reflexivity. Qed.
+
 (* ================================================================ Part 7: the second declaration parser *)
 Definition c12_name_clean (t : xtok) : bool :=
   match t with XT XName v => negb (existsb (Byte.eqb c12_lparen) v) | _ => true end.
